@@ -10,7 +10,9 @@ Trees == << << E("a.xml", "xml", 0), E("b.xml", "xml", 0) >>,
             << E("a.xml", "xml", 0), E("bad.xml", "xmlbad", 0), E("c.txt", "txtjson", 0), E("l.xml", "dangling", 0), E("b.xml", "xml", 0) >>,
             << E("ent.xml", "xmlent", 0), E("a.xml", "xml", 0), E("noext", "noext", 0) >>,
             << E("j.json", "json", 0), E("h.html", "html", 0), E("d", "dir", 0), E("k.xml", "xml", 3) >>,
-            << E("data.txt", "txtjson", 0) >> >>
+            << E("data.txt", "txtjson", 0) >>,
+            << E("-", "stdinxml", 0), E("a.xml", "xml", 0) >>,                                   \* standard input next to a file
+            << E("ln.xml", "linkxml", 0), E("d", "dir", 0), E("l2.xml", "linkxml", 2), E("r.xml", "xml", 2) >> >>   \* symbolic links, named and found by -r
 Bools == {TRUE, FALSE}
 Flags == {[a |-> a, m |-> m, n |-> n, r |-> r, t |-> t, e |-> e, u |-> u, q |-> q] :
             a \in Bools, m \in Bools, n \in Bools, r \in Bools, t \in {"", "xml", "json"}, e \in Bools, u \in Bools, q \in {"ns", "empty", "num"}}
@@ -22,6 +24,7 @@ Laws == Ready =>
   /\ \A i \in 1..Len(S) : (S[i].records # "none") => (S[i].visit /\ ~S[i].diag)                 \* output only for files that were read and parsed
   /\ \A i \in 1..Len(S) : (Trees[ti][i].in # 0 /\ ~fl.r) => ~S[i].visit                          \* directories are descended only with -r
   /\ \A i \in 1..Len(S) : fl.n => ~S[i].prefix
+  /\ \A i \in 1..Len(S) : (Trees[ti][i].cls = "stdinxml") => (~S[i].prefix /\ (fl.t = "" => (S[i].diag /\ S[i].records = "none")))   \* stdin: never a prefix, needs -t
   /\ (fl.q = "empty") => \A i \in 1..Len(S) : S[i].records = "none"
 Emit == (EmitOn /\ Ready) => PrintT(ToJson([fam |-> "C20.cli", tree |-> Trees[ti], flags |-> fl, spec |-> S]))
 =============================================================================
